@@ -737,6 +737,15 @@ impl<T: GseDecapMemory, C: CrcCalculator, MHEM: MandatoryHeaderExtensionManager>
             Err(err) => return Err((DecapError::ErrorMemory(err), pkt_len)),
         };
 
+        // check the total length: the fragments cannot exceed the length announced by the first one
+        if decap_context.pdu_len as usize + calculed_pdu_len > decap_context.total_len as usize {
+            // give the buffer back; if the memory refuses it, it is handed to the caller in the error
+            if let Err(err) = self.memory.provision_storage(pdu) {
+                return Err((DecapError::ErrorMemory(err), pkt_len));
+            }
+            return Err((DecapError::ErrorTotalLength, pkt_len));
+        }
+
         let pdu_buffer = &mut pdu[decap_context.pdu_len as usize..];
 
         let pdu_buffer_len = pdu_buffer.len();
@@ -826,8 +835,8 @@ impl<T: GseDecapMemory, C: CrcCalculator, MHEM: MandatoryHeaderExtensionManager>
             )
         };
 
-        let total_len_received = (pdu_len + PROTOCOL_LEN + first_label_len) as u16;
-        if decap_context.total_len != total_len_received {
+        let total_len_received = pdu_len + PROTOCOL_LEN + first_label_len;
+        if decap_context.total_len as usize != total_len_received {
             // give the buffer back; if the memory refuses it, it is handed to the caller in the error
             if let Err(err) = self.memory.provision_storage(pdu) {
                 return Err((DecapError::ErrorMemory(err), pkt_len));
